@@ -21,7 +21,7 @@ import H2V.Model.ConnDriver
     sendDataC capf        = `Stream.sendData` with `Stream.capacity` abstracted   (`sendDataC.eq`, `sendDataC_def`)
     popFrameC sd          = `Streams.popFrame` with `Stream.sendData` abstracted  (`popFrameC.eq`, `popFrameC_zero/succ`)
 
-  No axioms, no `unsafe`: both commands only call `addDecl`, every declaration goes through the kernel.
+  No new axioms: both commands only call `addDecl`, so every declaration goes through the kernel.
 -/
 namespace H2V.Lemmas.ConnWakeP
 open H2V H2V.Model H2V.Model.Conn
